@@ -25,7 +25,7 @@ FUZZ = {
 }
 
 CHECKS = {
-    "C09": {"shards": (4, 8), "budget": (900, 7200), "race": True, "deadlock_is_violation": True},
+    "C09": {"shards": (8, 16), "budget": (900, 7200), "race": True, "deadlock_is_violation": True},
 }
 
 
